@@ -29,6 +29,51 @@ private theorem mem_sortAscAmt (y : Addr × Nat) (l : List (Addr × Nat)) :
     simp only [Sys.sortAscAmt, List.foldr_cons] at ih ⊢
     rw [mem_insAscAmt, ih]; simp
 
+private theorem length_insAscAmt (x : Addr × Nat) (l : List (Addr × Nat)) :
+    (Sys.insAscAmt x l).length = l.length + 1 := by
+  induction l with
+  | nil => simp [Sys.insAscAmt]
+  | cons z zs ih =>
+    simp only [Sys.insAscAmt]
+    split
+    · simp
+    · simp [ih]
+
+private theorem length_sortAscAmt (l : List (Addr × Nat)) : (Sys.sortAscAmt l).length = l.length := by
+  induction l with
+  | nil => simp [Sys.sortAscAmt]
+  | cons z zs ih =>
+    simp only [Sys.sortAscAmt, List.foldr_cons] at ih ⊢
+    rw [length_insAscAmt, ih]; simp
+
+/-- **The list the registry answers is the registry.** `GetValidatorsForDelegation` — what the hub
+    distributes every bond over, and what a removal redelegates to — lists exactly the validators
+    the registry stores, once each entry: a validator is on the list iff it is registered (whatever
+    delegations the hub holds elsewhere, e.g. on a validator removed while its redelegation was
+    blocked), and the amount shown for it is the hub's delegation to it. -/
+theorem C13_list_query_lists_exactly_registered (s : Sys) (l : List (Addr × Nat))
+    (hq : s.validatorsOf regA = .ok l) :
+    (∀ v, v ∈ l.map (·.1) ↔ v ∈ s.reg.vals) ∧ l.length = s.reg.vals.length ∧
+    (∀ y ∈ l, y.2 = (((s.delegationsOf s.reg.hub).find? (fun d => d.1 = y.1)).map (·.2)).getD 0) := by
+  simp only [Sys.validatorsOf, if_true] at hq
+  injection hq with hq; subst hq
+  refine ⟨fun v => ?_, ?_, fun y hy => ?_⟩
+  · simp only [List.mem_map]
+    constructor
+    · rintro ⟨y, hy, rfl⟩
+      rw [mem_sortAscAmt] at hy
+      simp only [Sys.regValidatorsRaw, List.mem_map] at hy
+      obtain ⟨w, hw, rfl⟩ := hy
+      exact hw
+    · intro hv
+      exact ⟨(v, _), (mem_sortAscAmt _ _).mpr (by
+        simp only [Sys.regValidatorsRaw, List.mem_map]; exact ⟨v, hv, rfl⟩), rfl⟩
+  · rw [length_sortAscAmt]; simp [Sys.regValidatorsRaw]
+  · rw [mem_sortAscAmt] at hy
+    simp only [Sys.regValidatorsRaw, List.mem_map] at hy
+    obtain ⟨w, _, rfl⟩ := hy
+    rfl
+
 private theorem plan_targets (vs : List (Addr × Nat)) (p : List Nat) (t : Addr × Nat)
     (ht : t ∈ (vs.zip p).filterMap (fun x => if x.2 = 0 then none else some (x.1.1, x.2))) :
     t.1 ∈ vs.map (·.1) ∧ 0 < t.2 := by
